@@ -7,6 +7,8 @@ from .. import paths, waiters
 from ..core import FUNC, call_attr, calls_in, const, dotted, is_const, kwarg, norm, text, walk_local
 
 EXPLANATION = [
+    'C13.session-lifecycle: command handlers are reached only while the session has not completed; a Pairing Request for a finished session replaces it; the SC key derivations are reached only with a computed DH key.',
+    'C13.zero-valid: in smp.py the presence of a passkey is always tested with `is None` / `is not None` (0 is a valid passkey).',
     'C13.stk-scope: get_long_term_key returns the STK only on paths where the pairing is legacy, not completed, and Rand/EDIV match; the LTK is returned otherwise.',
     'C13.fail-then-leave: in every Session method that can call send_pairing_failed, no protocol effect (command sent, key derived, encryption started) follows that call on any path.',
     'C13.role-symmetry: every call of s1/f5/f6/g2 is evaluated under both roles after rewriting own/peer values into initiator/responder tokens; both roles must feed the same tuple (and the specified order); a c1/f4 confirm value is verified with the tuple the other role generates it with; each side sends its own DHKey check and expects the peer\'s.',
@@ -586,7 +588,90 @@ def fail_then_leave(ctx, rule='C13.fail-then-leave'):
     R.check(n >= 3, rule, f'{S} | handlers that can declare failure', f'{n} methods analysed', f'only {n} methods call send_pairing_failed')
 
 
+
+def zero_valid(ctx):
+    """A passkey of 0 is a passkey: its presence is tested with `is None`, never by truthiness."""
+    R, p = ctx.r, ctx.p
+    rule = 'C13.zero-valid'
+    m = p.module('bumble.smp')
+    if m is None:
+        R.bad(rule, 'bumble.smp', 'anchor missing')
+        return
+    n = 0
+
+    def atoms(t):
+        if isinstance(t, ast.BoolOp):
+            for v in t.values:
+                yield from atoms(v)
+        elif isinstance(t, ast.UnaryOp) and isinstance(t.op, ast.Not):
+            yield from atoms(t.operand)
+        else:
+            yield t
+    for node in ast.walk(m.tree):
+        tests = []
+        if isinstance(node, (ast.If, ast.While, ast.IfExp, ast.Assert)):
+            tests.append(node.test)
+        for t in tests:
+            for a in atoms(t):
+                if dotted(a) in ('self.passkey', 'passkey'):
+                    n += 1
+                    R.bad(rule, f'{p.qual_of(node)} | truth test of {dotted(a)}', f'the passkey is tested by truthiness: the valid passkey 000000 is treated as "no passkey" (assertion failure / skipped step), the pairing never completes', p.loc(node))
+                elif isinstance(a, ast.Compare) and dotted(a.left) in ('self.passkey', 'passkey') and isinstance(a.ops[0], (ast.Is, ast.IsNot)):
+                    n += 1
+                    R.ok(rule, f'{p.qual_of(node)} | {norm(a)}', 'presence tested with `is None`', p.loc(node))
+    R.check(n >= 3, rule, 'bumble.smp | passkey presence tests', f'{n} tests', f'only {n} passkey tests found')
+
+
+
+def session_lifecycle(ctx):
+    """A pairing session processes nothing after it has ended, is replaced when a new request arrives, and derives keys only after the key exchange."""
+    from .. import sym
+    R, p = ctx.r, ctx.p
+    rule = 'C13.session-lifecycle'
+    oc = p.find(f'{S}.on_smp_command')
+    if oc is None:
+        R.bad(rule, f'{S}.on_smp_command', 'anchor missing')
+        return
+    disp = [n for n in ast.walk(oc) if isinstance(n, ast.Match)]
+    ok = False
+    if disp:
+        seen = []
+
+        class D(sym.Sym):
+            def on_event(self, node, extra, facts, store):
+                if isinstance(node, ast.Call) and (dotted(node.func) or '').startswith('self.on_smp_'):
+                    seen.append(sym.holds(facts, 'self.completed', False))
+                return extra
+        paths.run(oc, D(fact_filter=lambda t: 'completed' in t, store_filter=lambda t: False), sym.Sym.init())
+        ok = bool(seen) and all(seen)
+    R.check(ok, rule, f'{S}.on_smp_command | nothing after the end', 'every command handler is reached only while `self.completed` is false',
+            'a session that has completed or failed still processes SMP commands: a peer that ignores Pairing Failed can drive the exchange to the end', p.loc(oc))
+    mp = p.find('bumble.smp.Manager.on_smp_pdu')
+    if mp is None:
+        R.bad(rule, 'bumble.smp.Manager.on_smp_pdu', 'anchor missing')
+    else:
+        ends = [c for c in calls_in(mp) if call_attr(c) in ('on_disconnection', 'on_session_end', 'close') and (dotted(c.func) or '').startswith('session.') or dotted(c.func) == 'self.on_session_end']
+        g = [sorted(norm(t) for t, pol in paths.flat_guards(c) if pol) for c in ends]
+        ok = any(any('session.completed' in x for x in gg) and any('PAIRING_REQUEST' in x for x in gg) for gg in g)
+        R.check(ok, rule, 'bumble.smp.Manager.on_smp_pdu | new request, finished session', 'a Pairing Request for a connection whose session has completed ends that session and starts a new one',
+                'a new Pairing Request is handed to a session that has already completed: nothing answers it and the initiator\'s pair() never returns (no second pairing, no retry after a failure)', p.loc(mp))
+    sc = p.find(f'{S}.on_smp_pairing_random_command_secure_connections')
+    if sc is not None:
+        seen2 = []
+
+        class K(sym.Sym):
+            def on_event(self, node, extra, facts, store):
+                if isinstance(node, ast.Call) and dotted(node.func) in ('crypto.f5', 'crypto.f6', 'crypto.g2'):
+                    seen2.append(sym.holds(facts, 'self.dh_key', True))
+                return extra
+        paths.run(sc, K(fact_filter=lambda t: 'dh_key' in t, store_filter=lambda t: False), sym.Sym.init())
+        R.check(bool(seen2) and all(seen2), rule, f'{S}.on_smp_pairing_random_command_secure_connections | key exchange first', 'f5/f6/g2 are reached only when a DH key has been computed',
+                'keys are derived without checking that the public-key exchange took place (dh_key may still be empty): a peer that skips the Public Key PDU gets an LTK derived from an empty shared secret', p.loc(sc))
+
+
 RULES = [
+    ('C13.session-lifecycle', session_lifecycle),
+    ('C13.zero-valid', zero_valid),
     ('C13.stk-scope', stk_scope),
     ('C13.fail-then-leave', fail_then_leave),
     ('C13.role-symmetry', role_symmetry),
